@@ -53,7 +53,10 @@ def run_sim(ctx, mode, cases, tag):
 
     def one(k):
         of = os.path.join(ctx.work, "%s_out_%d.json" % (tag, k))
-        rc, out = runner.run_child([runner.PY, SIM, mode, files[k], of], timeout=1800,
+        # configuration dimension: every other shard runs the interpreter with -O (assert statements are stripped): the
+        # contracts may not depend on side effects placed inside assert statements
+        flags = ["-O"] if k % 2 == 1 else []
+        rc, out = runner.run_child([runner.PY] + flags + [SIM, mode, files[k], of], timeout=1800,
                                    out_path=os.path.join(ctx.work, "%s_log_%d.txt" % (tag, k)))
         if rc != 0 or not os.path.exists(of):
             raise runner.Machinery("cond_sim failed rc=%s: %s" % (rc, out[-1500:]))
